@@ -34,6 +34,11 @@ func (e *lBCDEncoder) Decode(src []byte, length int) ([]byte, int, error) {
 		return nil, 0, fmt.Errorf("length should be positive, got %d", length)
 	}
 
+	// check the length against the data before allocating anything for it
+	if length/2+length%2 > len(src) {
+		return nil, 0, fmt.Errorf("not enough data to decode. expected len %d, got %d", length/2+length%2, len(src))
+	}
+
 	decodedLen := length
 	if length%2 != 0 {
 		decodedLen += 1
